@@ -203,6 +203,14 @@ func search(a map[string]string, pool service.TransactionPool) {
 				s.report("native-mutant-accepted:Sign", "single-bit flip of Sign accepted", c, height, m)
 			}
 		}
+		// the same content honestly signed for another chain id must not be admitted here
+		{
+			o := g.honestNative(k, other)
+			distinct++
+			if s.accept(c, height, o) {
+				s.report("native-other-chain-accepted", "native transaction honestly signed for chain id "+other+" accepted on chain "+cid, c, height, o)
+			}
+		}
 		if bs := boundaryShift(tx); bs != nil {
 			if s.accept(c, height, bs) {
 				s.infos["two-field-boundary-shift-accepted"]++
@@ -266,6 +274,9 @@ func search(a map[string]string, pool service.TransactionPool) {
 				distinct++
 				if s.accept(c, height, rw) {
 					s.authentic(c, height, rw, chain)
+					if pv.name == "s-high" {
+						s.report("eth-malleated-signature-accepted", "the (r, n-s, v^1) twin of an accepted payload is accepted: same signer and content, different hash", c, height, rw)
+					}
 				}
 			}
 		}
